@@ -6,6 +6,11 @@ ALL = ["C%02d" % i for i in range(1, 21)]
 
 # property -> dict(level, text, note, technique, engine, design_ref)
 CLAIMED = {
+  "C03": dict(level="exploration", engine="E1",
+    text="Bounded-exhaustive exploration: every (pattern, strictness, node) triple for all accepted patterns <= P tokens over source tokens + the six hole spellings, plus every pattern cut (0/1 hole or a trailing $$$ run) from another source, against every node of every tree of token strings <= L; each reported match must be justified by an independent backtracking alignment relation written from the strictness table (DESIGN A.1), and get_match_len must not panic, exceed the node or split a child. ~2.7e9 triples, ~6e7 reported matches in the quick tier.",
+    note="ref_align is deliberately the most permissive legal alignment, so only the direction impl-match => legal is asserted; unnamed pattern tokens may stay unmatched at every strictness.",
+    technique="bounded-exhaustive enumeration of (pattern, node, strictness) triples checked against a reference alignment relation",
+    design_ref="DESIGN.md §3 C03, Appendix A.1"),
   "C05": dict(level="exploration", engine="E1",
     text="Bounded-exhaustive exploration of rule programs: every rule tree of depth <= 2 (thorough: same depth, L+1 sources, 8 languages) over per-language atoms and all operators (all/any/not, inside/has/precedes/follows x stopBy x field, nthChild An+B/reverse/ofRule, multi-key objects), loaded through the real YAML deserialiser, evaluated on every node of every tree from token strings <= L, and compared with an independent recursive reference evaluator (DESIGN A.2). ~7e8 (rule,node) evaluations in the quick tier.",
     note="Atoms (pattern/kind/regex) inside the reference are the real matchers (their semantics is C02/C03's subject); trees with zero-width nodes and trees where tree-sitter's cursor sibling walk disagrees with next()/prev() are excluded as stated in the evidence.",
